@@ -375,3 +375,94 @@ Qed.
 
 Lemma get_slice_as_array_merged_refuted : exists a first last, get_slice_as_array true a first last = Panic.
 Proof. exists {| aisbyte := true; abytes := [1;2;3;4;5;6;7]; adata := [] |}, 6, 2. reflexivity. Qed.
+
+(* ------------------------------------------------------------------ defer.go *)
+Lemma scan_chain_ok toks : forall fuel pos, 0 <= pos ->
+  exists r, scan_chain toks pos fuel = Ok r /\ pos <= r /\ (r <= len toks \/ r = pos).
+Proof.
+  induction fuel as [|f IH]; intros pos Hp; cbn [scan_chain]. { exists pos. split; [reflexivity|lia]. }
+  destruct (Z.leb_spec (len toks) pos). { exists pos. split; [reflexivity|lia]. }
+  use_idx toks pos t Ht.
+  destruct t; try (exists pos; split; [reflexivity|lia]);
+    (destruct (IH (pos + 1) ltac:(lia)) as [r [E [H1 H2]]]; exists r; split; [exact E|lia]).
+Qed.
+
+Lemma scan_parens_ok toks : forall fuel pos depth, 0 <= pos ->
+  exists r, scan_parens toks pos depth fuel = Ok r /\ pos <= r /\ (r <= len toks \/ r = pos) /\
+            (fuel <> O -> pos < len toks -> pos + 1 <= r).
+Proof.
+  induction fuel as [|f IH]; intros pos depth Hp; cbn [scan_parens].
+  { exists pos. repeat split; try lia; try (intros H; contradiction). }
+  destruct (Z.leb_spec (len toks) pos). { exists pos. repeat split; lia. }
+  use_idx toks pos t Ht.
+  destruct t.
+  1,2,5: destruct (IH (pos + 1) depth ltac:(lia)) as [r [E [H1 [H2 _]]]]; exists r; repeat split; try exact E; lia.
+  - destruct (IH (pos + 1) (depth + 1) ltac:(lia)) as [r [E [H1 [H2 _]]]]. exists r. repeat split; try exact E; lia.
+  - destruct (depth - 1 =? 0). { exists (pos + 1). repeat split; lia. }
+    destruct (IH (pos + 1) (depth - 1) ltac:(lia)) as [r [E [H1 [H2 _]]]]. exists r. repeat split; try exact E; lia.
+Qed.
+
+Lemma last_dot_ok toks stop : stop <= len toks -> forall fuel i acc, 0 <= i -> -1 <= acc < Z.max i 0 \/ acc = -1 ->
+  exists r, last_dot toks i stop acc fuel = Ok r /\ (r = -1 \/ (0 <= r < stop) \/ r = acc).
+Proof.
+  intros Hs. induction fuel as [|f IH]; intros i acc Hi Ha; cbn [last_dot]. { exists acc. split; [reflexivity|lia]. }
+  destruct (Z.leb_spec stop i). { exists acc. split; [reflexivity|lia]. }
+  use_idx toks i t Ht.
+  destruct (IH (i + 1) (match t with TDot => i | _ => acc end) ltac:(lia)) as [r [E Hres]].
+  { destruct t; lia. }
+  exists r. split; [exact E|]. destruct t; lia.
+Qed.
+
+Lemma hoist_receiver_no_panic toks start : 0 <= start -> hoist_receiver true toks start <> Panic.
+Proof.
+  intros Hs. apply ok_not_panic. unfold hoist_receiver, find_args_start.
+  destruct (scan_chain_ok toks (S (length toks)) start Hs) as [a [Ea [Ha1 Ha2]]]. rewrite Ea. cbn [bind].
+  unfold has_call_args. cbn [andb].
+  destruct (Z.leb_spec (len toks) a); cbn [bind negb]; [eauto|].
+  use_idx toks a t Ht.
+  destruct t; cbn [negb]; eauto.
+  (* the token at a is "(" and a < len toks *)
+  destruct (last_dot_ok toks a ltac:(lia) (S (length toks)) start (-1) Hs ltac:(lia)) as [ld [El Hl]]. rewrite El. cbn [bind].
+  destruct (Z.ltb_spec ld 0); [eauto|].
+  unfold find_call_end, find_args_start. rewrite Ea. cbn [bind].
+  destruct (scan_parens_ok toks (S (length toks)) a 0 ltac:(lia)) as [e [Ee [He1 [He2 He3]]]]. rewrite Ee. cbn [bind].
+  assert (a + 1 <= e) by (apply He3; [discriminate|lia]).
+  rewrite mk_ok by lia. cbn [bind].
+  use_slice toks ld e sfx Hsfx. eauto.
+Qed.
+
+Lemma hoist_receiver_unguarded_refuted : exists toks start, 0 <= start /\ hoist_receiver false toks start = Panic.
+Proof. exists [TIdent; TDot], 0. split; [lia|reflexivity]. Qed.
+
+(* ------------------------------------------------------------------ mutex bookkeeping *)
+Definition rw_inv (s : rwm) : Prop := bk_w s = rw_w s /\ bk_r s = rw_r s /\ 0 <= rw_r s.
+
+Lemma rw_step_inv s o : rw_inv s -> rw_inv (fst (rw_step false s o)) /\ snd (rw_step false s o) <> MFatal.
+Proof.
+  intros [Hw [Hr H0]]. destruct s as [w r bw br]. cbn in Hw, Hr, H0. subst bw br.
+  destruct o; cbn [rw_step rw_w rw_r bk_w bk_r].
+  - destruct (w || (0 <? r)); cbn; unfold rw_inv; cbn; repeat split; try lia; discriminate.
+  - destruct w; cbn; unfold rw_inv; cbn; repeat split; try lia; discriminate.
+  - destruct w; cbn; unfold rw_inv; cbn; repeat split; try lia; discriminate.
+  - destruct (Z.leb_spec r 0); cbn; unfold rw_inv; cbn; repeat split; try lia; discriminate.
+  - destruct (w || (0 <? r)); cbn; unfold rw_inv; cbn; repeat split; try lia; discriminate.
+  - destruct w; cbn; unfold rw_inv; cbn; repeat split; try lia; discriminate.
+Qed.
+
+Lemma rw_run_no_fatal : forall ops s, rw_inv s -> ~ In MFatal (rw_run false s ops).
+Proof.
+  induction ops as [|o r IH]; intros s Hs; cbn [rw_run]; [intros []|].
+  pose proof (rw_step_inv s o Hs) as [Hi Hf]. destruct (rw_step false s o) as [s' out]. cbn [fst snd] in Hi, Hf.
+  destruct out; try (intros [E|E]; [discriminate|exact (IH s' Hi E)]).
+  - intros [E|[]]. discriminate.
+  - contradiction.
+Qed.
+
+Lemma rw_run_pre_refuted : In MFatal (rw_run true rwm0 [MLock; MTryRLock; MUnlock; MRUnlock]).
+Proof. vm_compute. tauto. Qed.
+
+Lemma mx_run_no_fatal : forall ops w, ~ In MFatal (mx_run (w, w) ops).
+Proof.
+  induction ops as [|o r IH]; intros w; cbn [mx_run]; [intros []|].
+  destruct o, w; cbn; try (intros [E|E]; [discriminate|exact (IH _ E)]); try (intros [E|[]]; discriminate).
+Qed.
